@@ -53,6 +53,9 @@ func selectJobs(w *World, o *checkOpts) []job {
 			}
 		}
 		for _, lm := range cs.Lemmas {
+			if strings.HasPrefix(lm.Label, "slow-") && o.tier != "thorough" {
+				continue
+			}
 			if len(want) > 0 {
 				if want["lemma "+lm.Label] || want[lm.Label] {
 					jobs = append(jobs, job{name: "lemma " + lm.Label, lemma: lm})
